@@ -54,6 +54,10 @@ func (rs *runState) judge(prop string, clientFinished bool, out *core.Outcome) {
 	// observed on the environment's side: the TNC reported the end of a link
 	// before the Dial call that was setting it up had returned.
 	tag := reg.tag()
+	backlog := p.TNC.Has(func(e ardoptnc.Ev) bool { return e.Kind == "arq" && e.Rep > 4096 })
+	if backlog {
+		sim.Probe("arq-run-longer-than-the-receive-queue")
+	}
 	for _, cr := range conns {
 		if mc := matchConn(cr, snap.Conns); mc != nil && cr.Via == "dial" && !mc.Up && mc.EndedAt < cr.OpenedAt {
 			tag += "-disc-during-dial"
@@ -364,6 +368,13 @@ func (rs *runState) judge(prop string, clientFinished bool, out *core.Outcome) {
 		if cr.ReadEnd < 0 && !cr.inRead {
 			sim.Probe("reader-still-pausing-at-end-of-run")
 			continue // it was not waiting for data: what it has not read yet is not missing
+		}
+		if len(cr.Got) < len(s.min) && p.Mode == "tcp" && backlog && mc.EndCause == "remote" {
+			// what was read is a prefix of the stream and the link was ended by
+			// the remote side while the library's control loop stood behind its
+			// full receive queue
+			sim.Violate(prop, "read-stream", "tail-lost-at-remote-disconnect-behind-full-queue/"+tag, "connection %d (%s): Read returned %d bytes (reader end: %q) of the %d bytes of ARQ payload the TNC had delivered on the data socket before it announced the end of the link on the control socket; more than 4096 frames were unread at some point", cr.Idx, cr.Via, len(cr.Got), cr.ReadErr, len(s.min))
+			continue
 		}
 		if len(cr.Got) < len(s.min) {
 			sim.Violate(prop, "read-stream", "frames-lost/"+tag, "connection %d (%s): Read returned %d bytes (reader end: %q) but the TNC had delivered %d bytes of ARQ payload to the host before the connection was closed by the client (sent in total: %d)", cr.Idx, cr.Via, len(cr.Got), cr.ReadErr, len(s.min), len(s.max))
